@@ -255,7 +255,7 @@ def install(eng):
 
     def it_next(eng, it, fr):
         """-> value or None (forks)"""
-        if isinstance(it, Ref):
+        while isinstance(it, Ref):
             it = it.cell.get(eng)
         if isinstance(it, SliceIter):
             s = it.s
@@ -303,7 +303,7 @@ def install(eng):
         oty = norm_ty(ctx.dest_ty) if ctx.dest_ty else 'Option'
         return opt(eng, oty) if v is None else opt(eng, oty, v)
     m(r'^<(std::ops::|core::ops::)?Range as (std::iter::|core::iter::)?Iterator>::next$', lambda e, a, c: m_gen_next(e, a, c))
-    m(r'^<(std::iter::|core::iter::)?(adapters::)?(\w+::)?(Map|Zip|Enumerate) as (std::iter::|core::iter::)?Iterator>::next$', lambda e, a, c: m_gen_next(e, a, c))
+    m(r'^<(&mut )?(std::iter::|core::iter::)?(adapters::)?(\w+::)?(Map|Zip|Enumerate) as (std::iter::|core::iter::)?Iterator>::next$', lambda e, a, c: m_gen_next(e, a, c))
     m(r'^<.* as (std::iter::|core::iter::)?Iterator>::map$', lambda e, a, c: MapIter(a[0], a[1]), fallback=True)
     m(r'^<.* as (std::iter::|core::iter::)?Iterator>::zip$', lambda e, a, c: ZipIter(a[0], a[1] if not isinstance(a[1], (Ref, SymSeq, ConcSeq, SliceRef)) or isinstance(a[1], Ref) and isinstance(a[1].cell.get(e), SliceIter) else SliceIter(as_slice(e, a[1]))), fallback=True)
     m(r'^<.* as (std::iter::|core::iter::)?Iterator>::enumerate$', lambda e, a, c: EnumIter(a[0]), fallback=True)
@@ -354,13 +354,47 @@ def install(eng):
         def copy_value(self, eng):
             return self
 
+    class ClonedIter:
+        def __init__(self, it):
+            self.it = it
+
+        def iter_next(self, eng, fr):
+            v = it_next(eng, self.it, fr)
+            if v is None:
+                return None
+            while isinstance(v, Ref):
+                v = v.cell.get(eng)
+            return eng.copy_value(v)
+
+        def copy_value(self, eng):
+            return self
+    m(r'^<.* as (std::iter::|core::iter::)?Iterator>::(cloned|copied)$', lambda e, a, c: ClonedIter(a[0]), fallback=True)
+    m(r'^<(std::iter::|core::iter::)?(adapters::)?(\w+::)?(Cloned|Copied) as (std::iter::|core::iter::)?Iterator>::next$', lambda e, a, c: m_gen_next(e, a, c))
+
+    def m_fold(eng, args, ctx):
+        it, acc, f = args
+        n = 0
+        while True:
+            v = it_next(eng, it, ctx.frame)
+            if v is None:
+                return acc
+            acc = eng.call_value(ctx.frame, f, [acc, v])
+            n += 1
+            if n > 64:
+                raise PathEnd('unwind', 'fold')
+    m(r'^<.* as (std::iter::|core::iter::)?Iterator>::fold$', m_fold, fallback=True)
+
     def m_rev(e, a, c):
         it = a[0]
         if isinstance(it, Ref):
             it = it.cell.get(e)
         if isinstance(it, SliceIter):
             return RevSliceIter(it)
-        return NotImplemented
+        if isinstance(it, ClonedIter):
+            inner = it.it.cell.get(e) if isinstance(it.it, Ref) else it.it
+            if isinstance(inner, SliceIter):
+                return ClonedIter(RevSliceIter(inner))
+        raise Unsupported('rev of ' + type(it).__name__)
     m(r'^<.* as (std::iter::|core::iter::)?Iterator>::rev$', m_rev, fallback=True)
     m(r'^<.* as (std::iter::|core::iter::)?Iterator>::skip$', lambda e, a, c: SkipIter(a[0], a[1]), fallback=True)
     m(r'^<.* as (std::iter::|core::iter::)?Iterator>::take$', lambda e, a, c: TakeIter(a[0], a[1]), fallback=True)
